@@ -41,8 +41,9 @@ EXPLANATION = (
     "spin cases: targets stay, the other indices get the lowest unused names per (space, spin) in order of first "
     "appearance, and the returned permutations reproduce the result.")
 ASSUMPTIONS = [
-    "R08a shapes over-approximate: attribute stores are not tracked (a list kept in an attribute is 'not established'); "
-    "methods on receivers of unknown class are resolved by method name and signature",
+    "R08a shapes over-approximate: attributes are followed only on objects whose constructor call is evaluated (an "
+    "ordered list parked in an attribute of `self` between two methods is 'not established'); methods on receivers of "
+    "unknown class are resolved by method name and signature",
     "R08d/R08e/R08f/R08g are evaluated on bounded request histories, index maps over four indices and small name sets "
     "(bounded, not exhaustive)",
     "sympy's subs applies a list of pairs sequentially; sympy itself (Dummy identity, subs) is modelled, not analysed",
